@@ -40,13 +40,16 @@ var verifyAlgs = []string{"ES256", "RS256", "RS384", "PS256", "ES384", "EdDSA"}
 // libraryDefaultAlgs is what the library documents as allowed when no list is configured.
 var libraryDefaultAlgs = []string{"RS256", "ES256", "PS256"}
 
+// allowedLists: the lists of part verify (full product); alglist_test.go adds the list family.
 var allowedLists = map[string][]string{
 	"default":      nil,
 	"rs256":        {"RS256"},
 	"es256+eddsa":  {"ES256", "EdDSA"},
-	"all":          {"RS256", "RS384", "RS512", "PS256", "PS384", "PS512", "ES256", "ES384", "ES512", "EdDSA"},
+	"all":          allAsymmetric,
 	"with-hs+none": {"RS256", "ES256", "HS256", "none"},
 }
+
+var allAsymmetric = []string{"RS256", "RS384", "RS512", "PS256", "PS384", "PS512", "ES256", "ES384", "ES512", "EdDSA"}
 
 func slotValues(def string) []string {
 	out := []string{def}
@@ -96,11 +99,11 @@ func tilde(s string) string {
 }
 
 // slotsOf decodes the three key-set slots of v for algorithm alg.
-func slotsOf(v engine.Vec, alg string) (ks []pkey, id string) {
+func slotsOf(sp engine.Space, v engine.Vec, alg string) (ks []pkey, id string) {
 	var sb strings.Builder
 	sb.WriteString(alg)
 	for i := 0; i < 3; i++ {
-		s := vspace[iK1+i].Vals[v[iK1+i]]
+		s := sp[iK1+i].Vals[v[iK1+i]]
 		sb.WriteString("|" + s)
 		if s == "-" {
 			continue
@@ -112,7 +115,10 @@ func slotsOf(v engine.Vec, alg string) (ks []pkey, id string) {
 	return ks, sb.String()
 }
 
-func skipVerify(v engine.Vec) bool {
+func skipVerify(v engine.Vec) bool { return skipIn(vspace, v) }
+
+// skipIn: sp has the dimensions of vspace in the same order (only the alphabets of "allowed" may differ).
+func skipIn(sp engine.Space, v engine.Vec) bool {
 	verifier := verifiers[v[iVerifier]]
 	if v[iCache] != 0 && verifier != "rp-remote" {
 		return true
@@ -124,7 +130,7 @@ func skipVerify(v engine.Vec) bool {
 		// the storage hands out registered keys by kid: only well-formed registrations
 		seen := map[string]bool{}
 		for i := 0; i < 3; i++ {
-			s := vspace[iK1+i].Vals[v[iK1+i]]
+			s := sp[iK1+i].Vals[v[iK1+i]]
 			if s == "-" {
 				continue
 			}
@@ -141,21 +147,23 @@ func skipVerify(v engine.Vec) bool {
 // obligations[entry point][either|mustAccept|mustReject]: how many executions carried which obligation.
 var obligations [7][3]atomic.Int64
 
-func (w *worker) verifyCase(v engine.Vec) engine.Result {
+func (w *worker) verifyCase(v engine.Vec) engine.Result { return w.verifyIn(vspace, v) }
+
+// verifyIn executes and judges one vector of sp (dimensions of vspace, same order).
+func (w *worker) verifyIn(sp engine.Space, v engine.Vec) engine.Result {
 	verifier := verifiers[v[iVerifier]]
 	mut := mutations[v[iMut]]
 	alg := verifyAlgs[v[iAlg]]
 	tkid := tokenKids[v[iTkid]]
 	kind := kindOf(verifier)
 	token := tokenTable[tokenKey(kind, alg, tkid, mut)]
-	ks, ksID := slotsOf(v, alg)
-	cfgAllowed := allowedLists[vspace[iAllowed].Vals[v[iAllowed]]]
-	effAllowed := cfgAllowed
-	if effAllowed == nil {
-		effAllowed = libraryDefaultAlgs
+	ks, ksID := slotsOf(sp, v, alg)
+	cfgAllowed, known := allowedLists[sp[iAllowed].Vals[v[iAllowed]]]
+	if !known {
+		panic("no allowed list " + sp[iAllowed].Vals[v[iAllowed]])
 	}
-	vd := refJudge(token, effAllowed, modeOf(verifier), ks, w.sigMemo)
-	o := w.run(runCfg{verifier: verifier, token: token, allowed: cfgAllowed, ks: ks, ksID: ksID, cache: vspace[iCache].Vals[v[iCache]]})
+	vd := refJudge(token, cfgAllowed, modeOf(verifier), ks, w.sigMemo)
+	o := w.run(runCfg{verifier: verifier, token: token, allowed: cfgAllowed, ks: ks, ksID: ksID, cache: sp[iCache].Vals[v[iCache]]})
 
 	rule := vd.rule
 	obligations[v[iVerifier]][vd.want].Add(1)
@@ -191,6 +199,8 @@ var aPriori = map[string]string{
 	"asis":     "valid",
 	"alg-none": "alg-none", "unsigned-2parts": "unsigned", "sig-empty": "unsigned",
 	"hs256-pem": "alg-not-allowed", "hs256-der": "alg-not-allowed", "hs256-raw": "alg-not-allowed",
+	"alg-hdr-sibling": "bad-signature", // RSA family; for EC / OKP the trusted key does not fit the claimed algorithm: no-key-fits
+	"alg-hdr-lower":   "alg-not-allowed", "alg-hdr-unknown": "alg-not-allowed",
 	"attacker-key": "bad-signature", "attacker-jwk-header": "bad-signature",
 	"sig-trunc": "bad-signature", "sig-bitflip": "bad-signature",
 	"payload-swap": "bad-signature", "payload-reencoded": "bad-signature", "header-reencoded": "bad-signature",
@@ -213,8 +223,18 @@ func sanity(c *engine.Check) {
 			for _, mut := range mutations {
 				tok := tokenTable[tokenKey(kindOf(verifier), alg, "a", mut)]
 				vd := refJudge(tok, allowedLists["all"], modeOf(verifier), ks, nil)
-				if vd.rule != aPriori[mut] {
-					c.Internal(fmt.Sprintf("sanity: mutation %s/%s/%s judged %q by the reference, built to be %q", verifier, alg, mut, vd.rule, aPriori[mut]))
+				want := aPriori[mut]
+				if mut == "alg-hdr-sibling" && algFamily(alg) != "RSA" {
+					want = "no-key-fits"
+				}
+				if strings.HasPrefix(mut, "alg-hdr-") {
+					// the literal claimed name allowed: still never believed (wrong scheme / no key type)
+					if vd2 := refJudge(tok, []string{claimedAlg(mut, alg)}, modeOf(verifier), ks, nil); vd2.want != mustReject || vd2.rule == "alg-not-allowed" {
+						c.Internal("sanity: " + mut + "/" + alg + " with its claimed name allowed judged " + vd2.rule)
+					}
+				}
+				if vd.rule != want {
+					c.Internal(fmt.Sprintf("sanity: mutation %s/%s/%s judged %q by the reference, built to be %q", verifier, alg, mut, vd.rule, want))
 				}
 				// with HS256 allowed the forged MAC must fail for the key type, not for the list
 				if strings.HasPrefix(mut, "hs256") {
@@ -251,7 +271,8 @@ func fkSlotValues() []string {
 func fkSpace(slots int) engine.Space {
 	s := engine.Space{
 		engine.D("tkid", "a", "~", "c"),
-		engine.D("alg", "RS256", "PS384", "ES256", "ES512", "EdDSA", "HS256", "none", "~"),
+		// "rs256": JOSE algorithm names are case-sensitive; a case-changed name is no algorithm of any key type
+		engine.D("alg", "RS256", "PS384", "ES256", "ES512", "EdDSA", "HS256", "none", "~", "rs256"),
 	}
 	for i := 1; i <= slots; i++ {
 		s = append(s, engine.D(fmt.Sprintf("f%d", i), fkSlotValues()...))
@@ -378,9 +399,11 @@ func findKeyCase(sp engine.Space, tab [][]fkSlot, v engine.Vec) engine.Result {
 
 func TestCheck(t *testing.T) {
 	c := engine.Start(t, "C02")
-	c.SetRule("E1. Part verify: full product {verifier entry point, serialisation mutation, signing algorithm, allowed-algorithm list} crossed with <=kA deviations of {token kid, key slots k1..k3, remote-cache state}, and full product {verifier, token kid, k1, k2, k3, cache} crossed with <=kB deviations of the rest; every vector executed on the real verifier in a synctest bubble. Part findkey: full product token kid x algorithm x key set (each slot: absent or kid x use x key type) on oidc.FindMatchingKey. distinct = (part, oracle rule, observed outcome class)")
+	c.SetRule("E1. Part verify: full product {verifier entry point, serialisation mutation, signing algorithm, allowed-algorithm list} crossed with <=kA deviations of {token kid, key slots k1..k3, remote-cache state}, and full product {verifier, token kid, k1, k2, k3, cache} crossed with <=kB deviations of the rest; every vector executed on the real verifier in a synctest bubble. Part alglist: the same space with the allowed-algorithm list family (single members, only-unusable, mixed, duplicates, unknown / near-miss names, empty) in full product with verifier, mutation and algorithm. Part reqobj: full product entry point x outer client x object iss x client_id claim x signing key x kid scheme for the request-object verifier. Part reuse: all call sequences <=3 on one JWT-profile verifier. Part findkey: full product token kid x algorithm x key set (each slot: absent or kid x use x key type) on oidc.FindMatchingKey. distinct = (part, oracle rule, observed outcome class)")
 	c.Assume("reference signature checks use crypto/rsa, crypto/ecdsa, crypto/ed25519 directly; the Go standard library is trusted",
 		"library default allowed list (nothing configured) is RS256, ES256, PS256 as documented",
+		"a configured non-empty allowed list is read literally (JOSE names are case-sensitive strings; no trimming, no splitting); a list without any member a public key can verify allows nothing; an empty non-nil list is open between 'default' and 'nothing' (only algorithms outside the default must be refused)",
+		"the configured key set of a request object is the set of keys registered for the client_id of the authorization request that carries it; without an outer client_id an object that names its signer consistently is judged Either",
 		"well-formed single-signature JSON serialisations, white space in or around the compact form, and key choices that depend on the reading of 'type fits' (EC curve) or 'kid consistent' (kid-less published key for a kid-bearing token, duplicate kids) are judged Either",
 		"the static key set of the harness selects with oidc.FindMatchingKey and verifies with VerifyMulti, i.e. it relies on CheckSignature for the exactly-one-signature rule",
 		"keys registered for a client are handed out by the storage by kid (refstore / harness key storage); use and kid rules are only demanded for published sets")
@@ -409,8 +432,14 @@ func TestCheck(t *testing.T) {
 		},
 	})
 
-	reusePart(c, t)
 	c.Extra("verify_wall_s", time.Since(t0).Seconds())
+	reusePart(c, t)
+	t0 = time.Now()
+	alglistPart(c, t)
+	c.Extra("alglist_wall_s", time.Since(t0).Seconds())
+	t0 = time.Now()
+	reqobjPart(c, t)
+	c.Extra("reqobj_wall_s", time.Since(t0).Seconds())
 	per := map[string]map[string]int64{}
 	for i, name := range verifiers {
 		per[name] = map[string]int64{"either": obligations[i][either].Load(), "must_accept": obligations[i][mustAccept].Load(), "must_reject": obligations[i][mustReject].Load()}
